@@ -10,6 +10,7 @@
 #include <sys/epoll.h>
 #include <netinet/in.h>
 #include <arpa/inet.h>
+#include <netinet/tcp.h>
 #include <time.h>
 
 namespace su {
@@ -69,6 +70,10 @@ inline bool waitReady(int fd, short ev, int maxMs = 10000) {
 inline uint16_t localPort(int fd) { sockaddr_in a; socklen_t l = sizeof a; memset(&a, 0, sizeof a); getsockname(fd, (sockaddr*)&a, &l); return ntohs(a.sin_port); }
 inline uint16_t peerPort(int fd) { sockaddr_in a; socklen_t l = sizeof a; memset(&a, 0, sizeof a); if (getpeername(fd, (sockaddr*)&a, &l) != 0) return 0; return ntohs(a.sin_port); }
 inline void lingerReset(int fd, bool on) { struct linger lg; lg.l_onoff = on ? 1 : 0; lg.l_linger = 0; setsockopt(fd, SOL_SOCKET, SO_LINGER, &lg, sizeof lg); }   // close() sends RST: no TIME_WAIT pile-up
+// harness-owned TCP end: no Nagle for what the peer sends, no delayed ACK for what it receives (TCP_QUICKACK is not sticky: re-arm after every recv) -
+// otherwise every small segment costs a 40 ms real-time timer. Nothing here changes what the library's socket may or must do.
+inline void tcpFast(int fd) { int v = 1; setsockopt(fd, IPPROTO_TCP, TCP_NODELAY, &v, sizeof v); setsockopt(fd, IPPROTO_TCP, TCP_QUICKACK, &v, sizeof v); }
+inline void quickAck(int fd) { int v = 1; setsockopt(fd, IPPROTO_TCP, TCP_QUICKACK, &v, sizeof v); }
 // listening socket on an ephemeral loopback port (retry: bind(0)+listen can collide with another process that is between bind and listen); -1 on failure
 inline int rawListener(uint16_t* port) {
   sockaddr_in a; memset(&a, 0, sizeof a); a.sin_family = AF_INET; a.sin_addr.s_addr = htonl(INADDR_LOOPBACK);
@@ -86,7 +91,7 @@ inline int rawConnect(uint16_t port, int rcvbuf = 0) {
   if (rcvbuf > 0) setsockopt(fd, SOL_SOCKET, SO_RCVBUF, &rcvbuf, sizeof rcvbuf);
   sockaddr_in a; memset(&a, 0, sizeof a); a.sin_family = AF_INET; a.sin_addr.s_addr = htonl(INADDR_LOOPBACK); a.sin_port = htons(port);
   if (connect(fd, (sockaddr*)&a, sizeof a) != 0) { close(fd); return -1; }
-  setNonBlock(fd); lingerReset(fd, true);
+  setNonBlock(fd); lingerReset(fd, true); tcpFast(fd);
   return fd;
 }
 
